@@ -2,7 +2,7 @@
     non-empty, well formed, on lines >= the node's line and — unless it is the fallback position of a node that
     itself lies outside the file — inside the file.  Rule line ranges enclose their parts and fields. *)
 From Coq Require Import List String Ascii ZArith Bool Lia.
-From PintV Require Import Common.Bytes Model.Position Model.Layout Proofs.C06_expand Proofs.C06_match.
+From PintV Require Import Common.Bytes Model.CommentsUnicode Model.Position Model.Layout Proofs.C06_expand Proofs.C06_match.
 Import ListNotations.
 Local Open Scope Z_scope.
 Local Open Scope list_scope.
@@ -63,12 +63,122 @@ Proof.
     + apply (IH lines l line (col + 1) need rest offs Hl Hlo ltac:(lia) Hn Hd' Hi).
 Qed.
 
-Lemma npr_loop_inv lo : forall ls lines k prev col minCol need rest offs brk o,
+(** ** The token scanner of double-quoted scalars keeps the same invariant: the positions of decoded bytes lie on the
+    columns of their escape sequence, which lies inside the line. *)
+
+Lemma unescape_size s : s <> EmptyString ->
+  (1 <= snd (unescape s) <= String.length s)%nat.
+Proof.
+  intros Hne. destruct s as [|b [|c r]]; [contradiction|cbn; lia|].
+  unfold unescape. cbv zeta.
+  assert (H2 : (1 <= 2 <= String.length (String b (String c r)))%nat) by (cbn [String.length]; lia).
+  assert (Hhex : forall digits,
+            (1 <= snd (if Nat.ltb (String.length r) digits then (EmptyString, String.length (String b (String c r)))
+                       else match parse_hex digits r 0%N with
+                            | Some code => (CommentsUnicode.encode_rune code, (2 + digits)%nat)
+                            | None => (EmptyString, 2%nat)
+                            end) <= String.length (String b (String c r)))%nat).
+  { intros digits. destruct (Nat.ltb (String.length r) digits) eqn:E.
+    - cbn [snd String.length]. lia.
+    - apply Nat.ltb_ge in E. destruct (parse_hex digits r 0%N); cbn [snd String.length]; lia. }
+  repeat match goal with
+         | |- context [if (N.eqb ?a ?b) then _ else _] => destruct (N.eqb a b)
+         | |- context [if (orb ?a ?b) then _ else _] => destruct (orb a b)
+         end.
+  all: try apply Hhex.
+  all: cbn [snd]; exact H2.
+Qed.
+
+Lemma char_at_exists lines l line col d :
+  1 <= line -> 1 <= col ->
+  nth_error lines (Z.to_nat (line - 1)) = Some l ->
+  0 <= d -> col + d <= slen l ->
+  exists ch, char_at lines (line, col + d) = Some ch.
+Proof.
+  intros Hl Hc Hn Hd Hle. unfold char_at.
+  replace (1 <=? line) with true by (symmetry; apply Z.leb_le; lia).
+  replace (1 <=? col + d) with true by (symmetry; apply Z.leb_le; lia).
+  cbn [andb]. rewrite Hn.
+  replace (col + d =? slen l + 1) with false by (symmetry; apply Z.eqb_neq; lia).
+  destruct (String.get (Z.to_nat (col + d - 1)) l) as [ch|] eqn:E; [exists ch; reflexivity|].
+  exfalso. unfold slen in Hle.
+  assert (Hlt : (Z.to_nat (col + d - 1) < String.length l)%nat) by lia.
+  clear -E Hlt. revert E Hlt. generalize (Z.to_nat (col + d - 1)). intros k. revert k.
+  induction l as [|x l IH]; intros k E Hlt; [cbn in Hlt; lia|].
+  destruct k; [cbn in E; discriminate|]. cbn in E. apply (IH k E). cbn in Hlt. lia.
+Qed.
+
+Lemma sdrop_length : forall n s, String.length (sdrop n s) = (String.length s - n)%nat.
+Proof.
+  induction n as [|n IH]; intros s; [cbn; lia|]. destruct s as [|c s]; [reflexivity|]. cbn [sdrop String.length]. rewrite IH. lia.
+Qed.
+
+Lemma append_decoded_inv lo lines l line col size len : forall n i offs,
+  1 <= line -> lo <= line -> 1 <= col ->
+  nth_error lines (Z.to_nat (line - 1)) = Some l ->
+  1 <= size -> col + size - 1 <= slen l ->
+  0 <= i -> i + Z.of_nat n <= len ->
+  inv lo lines offs ->
+  inv lo lines (append_decoded n i line col size len offs) /\
+  ((0 < n)%nat \/ offs <> [] -> append_decoded n i line col size len offs <> []).
+Proof.
+  induction n as [|n IH]; intros i offs Hl Hlo Hc Hn Hs Hle Hi Hin Hinv.
+  - cbn [append_decoded]. split; [exact Hinv|]. intros [H|H]; [lia|exact H].
+  - cbn [append_decoded].
+    set (d := Z.max 0 (size - len + i)).
+    assert (Hd : 0 <= d <= size - 1) by (unfold d; lia).
+    destruct (char_at_exists lines l line col d Hl Hc Hn ltac:(lia) ltac:(lia)) as [ch Hch].
+    pose proof (inv_append lo lines offs line (col + d) ch Hinv Hlo Hch) as Hinv'.
+    destruct (IH (i + 1) (append_position offs line (col + d)) Hl Hlo Hc Hn Hs Hle ltac:(lia) ltac:(lia) Hinv') as [H1 H2].
+    split; [exact H1|]. intros _. apply H2. right. apply append_position_nonempty.
+Qed.
+
+Lemma scan_line_dq_inv lo : forall bytes skip lines l line col need rest offs,
+  1 <= line -> lo <= line -> 1 <= col ->
+  nth_error lines (Z.to_nat (line - 1)) = Some l ->
+  sdrop (Z.to_nat (col - 1)) l = bytes ->
+  inv lo lines offs ->
+  match scan_line_dq bytes skip line col need rest offs with
+  | ScanDone o => inv lo lines o /\ o <> []
+  | ScanCont _ _ o => inv lo lines o
+  end.
+Proof.
+  induction bytes as [|got more IH]; intros skip lines l line col need rest offs Hl Hlo Hc Hn Hd Hi.
+  - cbn. exact Hi.
+  - assert (Hd' : sdrop (Z.to_nat (col + 1 - 1)) l = more).
+    { replace (Z.to_nat (col + 1 - 1)) with (S (Z.to_nat (col - 1))) by lia. apply (sdrop_step _ _ _ _ Hd). }
+    cbn [scan_line_dq]. destruct skip as [|k].
+    + destruct (Ascii.eqb got backslash) eqn:Eb.
+      * destruct (unescape (String got more)) as [decoded size] eqn:Eu.
+        pose proof (unescape_size (String got more) ltac:(discriminate)) as Hsz. rewrite Eu in Hsz. cbn [snd] in Hsz.
+        assert (Hlen : Z.of_nat (String.length (String got more)) <= slen l - (col - 1)).
+        { pose proof (sdrop_length (Z.to_nat (col - 1)) l) as Hsl. rewrite Hd in Hsl. unfold slen. lia. }
+        destruct decoded as [|d0 dr].
+        -- apply (IH (Nat.pred size) lines l line (col + 1) need rest offs Hl Hlo ltac:(lia) Hn Hd' Hi).
+        -- destruct (strip_prefix (String d0 dr) (String need rest)) as [left_|].
+           ++ destruct (append_decoded_inv lo lines l line col (Z.of_nat size) (slen (String d0 dr))
+                         (String.length (String d0 dr)) 0 offs Hl Hlo Hc Hn ltac:(lia) ltac:(lia) ltac:(lia)
+                         ltac:(unfold slen; lia) Hi) as [Hinv' Hne'].
+              destruct left_ as [|n' r'].
+              ** split; [exact Hinv'|]. apply Hne'. left. cbn [String.length]. lia.
+              ** apply (IH (Nat.pred size) lines l line (col + 1) n' r' _ Hl Hlo ltac:(lia) Hn Hd' Hinv').
+           ++ apply (IH (Nat.pred size) lines l line (col + 1) need rest offs Hl Hlo ltac:(lia) Hn Hd' Hi).
+      * destruct (Ascii.eqb need got) eqn:E.
+        -- assert (Hch : char_at lines (line, col) = Some got) by (eapply char_at_in_line; eauto).
+           pose proof (inv_append lo lines offs line col got Hi Hlo Hch) as Hi'.
+           destruct rest as [|n2 r2].
+           ++ split; [exact Hi'|apply append_position_nonempty].
+           ++ apply (IH 0%nat lines l line (col + 1) n2 r2 _ Hl Hlo ltac:(lia) Hn Hd' Hi').
+        -- apply (IH 0%nat lines l line (col + 1) need rest offs Hl Hlo ltac:(lia) Hn Hd' Hi).
+    + apply (IH k lines l line (col + 1) need rest offs Hl Hlo ltac:(lia) Hn Hd' Hi).
+Qed.
+
+Lemma npr_loop_inv lo dq : forall ls lines k prev col minCol need rest offs brk o,
   skipn k lines = ls ->
   lo <= Z.of_nat k + 1 ->
   inv lo lines offs ->
   (brk = true -> lo <= Z.of_nat k /\ exists pl, (1 <= k)%nat /\ nth_error lines (k - 1) = Some pl /\ prev = slen pl) ->
-  npr_loop ls prev (Z.of_nat k + 1) col minCol need rest offs brk = Ok o ->
+  npr_loop dq ls prev (Z.of_nat k + 1) col minCol need rest offs brk = Ok o ->
   inv lo lines o.
 Proof.
   induction ls as [|line more IH]; intros lines k prev col minCol need rest offs brk o Hsk Hlo Hi Hprev Hrun.
@@ -87,7 +197,7 @@ Proof.
     assert (Hnext : forall n r o1, inv lo lines o1 ->
               match advance n r with
               | None => Ok o1
-              | Some (n', r') => npr_loop more (slen line) (Z.of_nat k + 1 + 1) minCol minCol n' r' o1 (is_fold_char n)
+              | Some (n', r') => npr_loop dq more (slen line) (Z.of_nat k + 1 + 1) minCol minCol n' r' o1 (is_fold_char n)
               end = Ok o -> inv lo lines o).
     { intros n r o1 Hio Hr. destruct (advance n r) as [[n' r']|].
       - replace (Z.of_nat k + 1 + 1) with (Z.of_nat (S k) + 1) in Hr by lia.
@@ -99,11 +209,18 @@ Proof.
     + apply (Hnext need rest offs1 Hi1 Hrun).
     + destruct (adjust_col line col need rest) as [col2|] eqn:Eadj; [|discriminate].
       pose proof (adjust_col_ge1 _ _ _ _ _ Eadj) as Hc2.
-      pose proof (scan_line_inv lo (sdrop (Z.to_nat (col2 - 1)) line) lines line (Z.of_nat k + 1) col2 need rest offs1
-                                ltac:(lia) Hlo Hc2 Hnth' eq_refl Hi1) as Hscan.
-      destruct (scan_line (sdrop (Z.to_nat (col2 - 1)) line) (Z.of_nat k + 1) col2 need rest offs1) as [o1|n1 r1 o1].
+      assert (Hscan : match scan dq (sdrop (Z.to_nat (col2 - 1)) line) (Z.of_nat k + 1) col2 need rest offs1 with
+                      | ScanDone o => inv lo lines o /\ o <> []
+                      | ScanCont _ _ o => inv lo lines o
+                      end).
+      { unfold scan. destruct dq.
+        - apply (scan_line_dq_inv lo _ 0%nat lines line (Z.of_nat k + 1) col2 need rest offs1 ltac:(lia) Hlo Hc2 Hnth' eq_refl Hi1).
+        - pose proof (scan_line_inv lo (sdrop (Z.to_nat (col2 - 1)) line) lines line (Z.of_nat k + 1) col2 need rest offs1
+                                    ltac:(lia) Hlo Hc2 Hnth' eq_refl Hi1) as H.
+          destruct (scan_line (sdrop (Z.to_nat (col2 - 1)) line) (Z.of_nat k + 1) col2 need rest offs1); [exact H|exact (proj1 H)]. }
+      destruct (scan dq (sdrop (Z.to_nat (col2 - 1)) line) (Z.of_nat k + 1) col2 need rest offs1) as [o1|n1 r1 o1].
       * inversion Hrun; subst. apply Hscan.
-      * apply (Hnext n1 r1 o1 (proj1 Hscan) Hrun).
+      * apply (Hnext n1 r1 o1 Hscan Hrun).
 Qed.
 
 Lemma inv_nil lo lines : inv lo lines [].
@@ -115,12 +232,12 @@ Proof.
   unfold npr_entry. intros H. destruct (sn_block n).
   - destruct (sn_line n + 1 <=? 0) eqn:El; [discriminate|]. apply Z.leb_gt in El.
     replace (sn_line n + 1) with (Z.of_nat (Z.to_nat (sn_line n)) + 1) in H by lia.
-    eapply (npr_loop_inv (sn_line n) _ lines (Z.to_nat (sn_line n)) 0 minCol minCol need rest [] false o eq_refl);
+    eapply (npr_loop_inv (sn_line n) (sn_dq n) _ lines (Z.to_nat (sn_line n)) 0 minCol minCol need rest [] false o eq_refl);
       [lia|apply inv_nil|discriminate|exact H].
   - destruct (sn_line n <=? 0) eqn:El; [discriminate|]. apply Z.leb_gt in El.
     cbv zeta in H.
     replace (sn_line n) with (Z.of_nat (Z.to_nat (sn_line n - 1)) + 1) in H at 2 by lia.
-    eapply (npr_loop_inv (sn_line n) _ lines (Z.to_nat (sn_line n - 1)) 0 _ minCol need rest [] false o eq_refl);
+    eapply (npr_loop_inv (sn_line n) (sn_dq n) _ lines (Z.to_nat (sn_line n - 1)) 0 _ minCol need rest [] false o eq_refl);
       [lia|apply inv_nil|discriminate|exact H].
 Qed.
 
